@@ -5,7 +5,7 @@ from ..prog import norm, walk_body, AnalysisError, Func, DRAFTS
 from ..cfg import cfg_of, reaching_defs, node_exprs, walk_expr
 from ..calls import calls_of
 from ..effects import effects_of
-from ..common import calls_at, const_of
+from ..common import calls_at, const_of, find_method
 from ..report import site
 from . import tables
 from .c02 import only_via_edge
@@ -270,12 +270,43 @@ def rule_selection_total(ctx, rid="R20.7"):
     return r
 
 
+def rule_resolver_id_key(ctx, rid="R20.8"):
+    """"validate() and the CLI then behave exactly as the selected class does": the selected class reads the schema's base
+    URI under its own id key (`id` for drafts 3/4, `$id` later).  RefResolver.from_schema defaults to the `$id` reader, so
+    any package-side construction that does not forward the class's id_of resolves Draft 3/4 documents differently from
+    Draft3Validator(schema) / Draft4Validator(schema)."""
+    prog = ctx.prog
+    calls = calls_of(prog)
+    r = ctx.rule(rid, "every RefResolver.from_schema call in the package forwards the validator class's id_of", floor=1)
+    fs = find_method(prog, "validators.RefResolver", "from_schema")
+    idp = fs.params[2] if len(fs.params) > 2 else None
+    if idp is None:
+        raise AnalysisError("RefResolver.from_schema lost its id_of parameter")
+    for f in sorted(prog.funcs.values(), key=lambda x: x.qual):
+        for n in walk_body(f):
+            if not isinstance(n, ast.Call):
+                continue
+            if not any(t.kind == "func" and t.func is fs for t in calls.callee(f, n)):
+                continue
+            a = n.args[1] if len(n.args) > 1 else next((k.value for k in n.keywords if k.arg == idp), None)
+            if a is None:
+                r.fail("%s|from_schema-default-id_of" % f.qual, site(f, n),
+                       "`%s` relies on from_schema's default id reader ($id): for a class that reads `id` (Draft 3/4) the base URI and the "
+                       "store entry of the schema are lost, unlike <selected class>(schema)" % norm(n)[:60])
+            elif isinstance(a, ast.Constant) or (isinstance(a, ast.Name) and a.id == "_id_of"):
+                r.fail("%s|from_schema-fixed-id_of|%s" % (f.qual, norm(a)), site(f, n), "`%s` fixes the id reader instead of forwarding the class's" % norm(n)[:60])
+            else:
+                r.ok(site(f, n), "id_of=%s forwarded" % norm(a))
+    return r
+
+
 def run(ctx):
     ctx.explanation = (
         "C20: R20.1 CFG edge rules on validator_for (default edges, registry lookup, warning exactly on the unknown edge); "
         "R20.2 _LATEST_VERSION is the highest draft; R20.3 validate() and the CLI call validator_for only on the "
         "no-class edge and use the slot they filled; R20.4 who-may-write the registries (only validates(), only adding); "
-        "R20.5 each draft's metaschema id sits under the key its class reads and is the draft's URI (data agreement).")
+        "R20.5 each draft's metaschema id sits under the key its class reads and is the draft's URI (data agreement); "
+        "R20.8 every package-side RefResolver.from_schema forwards the class's id_of.")
     ctx.assume("urlsplit().geturl() drops an empty fragment (stdlib)")
     rule_validator_for(ctx)
     rule_latest(ctx)
@@ -287,3 +318,4 @@ def run(ctx):
     from .c15 import rule_uridict
     rule_uridict(ctx, "R20.6")
     rule_selection_total(ctx)
+    rule_resolver_id_key(ctx)
